@@ -114,6 +114,17 @@ Theorem C19_int_is_uint_of_cmpuint : forall v, encode_int v = encode_uint (int_t
 Proof. exact encode_int_is_uint. Qed.
 Print Assumptions C19_int_is_uint_of_cmpuint.
 
+(* the code computes the flip with xor on the two's-complement reinterpretation; the arithmetic model equals that form *)
+Theorem C19_cmpuint_is_xor : forall v, int64_range v -> int_to_cmp v = int_to_cmp_xor v.
+Proof. exact int_to_cmp_is_xor. Qed.
+Print Assumptions C19_cmpuint_is_xor.
+Theorem C19_cmpuint_decode_is_xor : forall u, u < two64 -> cmp_to_int u = cmp_to_int_xor u.
+Proof. exact cmp_to_int_is_xor. Qed.
+Print Assumptions C19_cmpuint_decode_is_xor.
+Theorem C19_int_uint_conversion : forall v, int64_range v -> u64_of_int v < two64 /\ int_of_u64 (u64_of_int v) = v.
+Proof. exact int_of_u64_of_int. Qed.
+Print Assumptions C19_int_uint_conversion.
+
 (* non-vacuity: hypotheses are met by concrete non-trivial values *)
 Example C19_nonvacuous :
   int64_range (-9223372036854775808)%Z /\ 18446744073709551615 < two64 /\
